@@ -239,9 +239,9 @@ func scaleOf(v ssa.Value, depth int) (*big.Rat, ssa.Value) {
 
 func checkC07(c *Check, p *Program) {
 	c.Technique = "abstract interpretation of every registered type's Pack (returned bytes per path with bit provenance), length/leading-byte comparison with the format table, interval analysis at every float-to-integer conversion, clamp-versus-accept interval inclusion, exact rational scale extraction, bit-field placement of the two-octet float against its specification"
-	c.Explanation = "Decided for every registered datapoint type: (1) every path of Pack returns the fixed length the KNX datapoint format prescribes for the type's main number, with a zero leading byte (sub-byte types: one byte whose bits 7..6 are zero) - by interpreting Pack and its helpers, or for the two string types with loops by a structural rule (one make of constant length, no store at index 0); (2) the encoding is accepted by the type's own decoder as far as shape goes: same length as the decoder's length guard, the interval the encoder clamps to is contained in the interval the decoder accepts (two-octet floats, 5.001, 5.003, 17.001, 18.001), validity gates (10.001, 11.001) guard every non-zero store with the same IsValid the decoder uses; (3) saturation: the operand of every float-to-integer conversion in Pack and the helpers lies, by the dominating clamp edges and constant arithmetic in float32 precision, inside the target type's range on amd64 and 386; integer-valued types hand only documented values to the byte packer; (4) the exact rational scale applied by Pack times the scale applied by Unpack is 1 and equals the format's scale (5.001 2.55, 5.003 255/360, 8.003/8.010 100, 8.004 10, two-octet float 100); (5) the two-octet float helper places sign, 4-bit exponent and 11-bit mantissa where the specification puts them on both sides, starts from a zeroed buffer, and sets the sign bit in the very region where it adds 2048 to a negative mantissa (two's complement), guarded by a comparison of that mantissa with zero. Not decided: the one-quantisation-step accuracy bound, monotonicity, and that the exponent never exceeds 15 - numeric relations over float32."
+	c.Explanation = "Decided for every registered datapoint type: (1) every path of Pack returns the fixed length the KNX datapoint format prescribes for the type's main number, with a zero leading byte (sub-byte types: one byte whose bits 7..6 are zero) - by interpreting Pack and its helpers, or for the two string types with loops by a structural rule (one make of constant length, no store at index 0); (2) the encoding is accepted by the type's own decoder as far as shape goes: same length as the decoder's length guard, the interval the encoder clamps to is contained in the interval the decoder accepts (two-octet floats, 5.001, 5.003, 17.001, 18.001), validity gates (10.001, 11.001) guard every non-zero store with the same IsValid the decoder uses; (3) saturation: the operand of every float-to-integer conversion in Pack and the helpers lies, by the dominating clamp edges and constant arithmetic in float32 precision, inside the target type's range on amd64 and 386; integer-valued types hand only documented values to the byte packer; (4) the exact rational scale applied by Pack times the scale applied by Unpack is 1 and equals the format's scale (5.001 2.55, 5.003 255/360, 8.003/8.010 100, 8.004 10, two-octet float 100); (5) the two-octet float helper places sign, 4-bit exponent and 11-bit mantissa where the specification puts them on both sides, starts from a zeroed buffer, and sets the sign bit in the very region where it adds 2048 to a negative mantissa (two's complement), guarded by a comparison of that mantissa with zero.; (6) the exponent fits its four bits: the scaled mantissa enters the halving loop inside the interval left by the helper's own clamp and by what every call site hands over, and iterating the loop's monotone transformer on the two ends of that interval reaches the exit interval in at most 15 steps. Not decided: the one-quantisation-step accuracy bound and monotonicity - numeric relations over float32 pairs."
 	c.Trusted = []string{"go/types, go/ssa", "kxcheck layout interpreter, bit provenance and interval analysis", "IEEE-754 float32 arithmetic for constant folding of clamp bounds"}
-	c.NotDecided = []string{"accuracy within one quantisation step", "monotonicity of encoding", "packF16 exponent <= 15 (follows from the clamp and the halving loop: numeric)"}
+	c.NotDecided = []string{"accuracy within one quantisation step", "monotonicity of encoding"}
 
 	dts := dptTypes(c, p, "C07.types")
 	c.Floor("C07.types", "registered datapoint types", len(dts), 174)
@@ -746,6 +746,12 @@ func checkF16(c *Check, p *Program) {
 		}
 	}
 	c.Decide(okInit, "C07.f16", "packF16 starts from m = int(f * 100), e = 0", ppos, "scale 100, exponent 0", "the mantissa does not start as the value times 100 (truncated) or the exponent not at 0")
+	var initCv *ssa.Convert
+	for i, e := range phiM.Edges {
+		if cv, ok := e.(*ssa.Convert); ok && !lps[0].Body[phiM.Block().Preds[i]] {
+			initCv = cv
+		}
+	}
 	li := &layoutInterp{p: p}
 	paths := li.run(pk, []AV{li.valueOfPath("f", pk.Params[0].Type())}, nil)
 	nameM, nameE := li.havocNames[phiM], li.havocNames[phiE]
@@ -797,6 +803,81 @@ func checkF16(c *Check, p *Program) {
 		c.Decide(bs[2].Equal(want2), "C07.f16", key+" octet 2 = mantissa bits 7..0", ppos, "["+want2.String()+"]", "octet 2 is ["+bs[2].String()+"], not the low mantissa byte")
 	}
 	c.Decide(sawNeg && sawPos, "C07.f16", "packF16 both signs occur", ppos, "paths for negative and for non-negative mantissas", fmt.Sprintf("negative: %v, non-negative: %v", sawNeg, sawPos))
+
+	// ---- the exponent fits its four bits.  The mantissa enters the loop inside the interval the clamp edges and
+	// the scale leave (interval analysis, float32 constants); the loop's transformer x -> x/2 (truncating) is
+	// monotone on either side of zero and the loop is left exactly inside [exLo, exHi] (the exit condition read off
+	// the paths above), so the largest number of halvings is needed at one of the two ends of the entry interval.
+	// Iterating the transformer on the two ends is the abstract loop itself (a decreasing chain, no widening).
+	// More than 15 halvings do not fit the field: exp & 15 wraps to 0 and the largest values decode as the smallest.
+	exLo, exHi, haveEx := int64(0), int64(0), false
+	for _, pp := range paths {
+		lo, hi := pp.env.bounds(linSym(nameM))
+		if !haveEx || lo < exLo {
+			exLo = lo
+		}
+		if !haveEx || hi > exHi {
+			exHi = hi
+		}
+		haveEx = true
+	}
+	if initCv == nil || !haveEx || exLo > 0 || exHi < 0 {
+		c.Fail("C07.f16", "packF16 exponent fits four bits", ppos, "the entry value or the exit interval of the normalisation loop could not be determined")
+		return
+	}
+	iv := numInterval(initCv.X, initCv.Block(), 0)
+	// what the callers hand over (every call site of the module, the helper's address is not taken): the types
+	// saturate at their own bounds first, and a helper that is only ever given values inside them need not clamp
+	// any tighter itself.  The entry interval is the intersection of both.
+	if k, src := scaleOf(initCv.X, 0); k != nil && src != nil && k.Sign() > 0 {
+		kf, _ := k.Float64()
+		cl, ch, nSites, addrTaken := math.Inf(1), math.Inf(-1), 0, false
+		for _, fn := range p.SrcFuncs() {
+			instrsOf(fn, func(in ssa.Instruction) {
+				if call, ok := in.(ssa.CallInstruction); ok && call.Common().StaticCallee() == pk && len(call.Common().Args) == 1 {
+					nSites++
+					a := numInterval(call.Common().Args[0], in.Block(), 0)
+					cl, ch = math.Min(cl, a.lo), math.Max(ch, a.hi)
+					return
+				}
+				for _, op := range in.Operands(nil) {
+					if *op == ssa.Value(pk) {
+						if call, ok := in.(ssa.CallInstruction); !ok || call.Common().Value != ssa.Value(pk) {
+							addrTaken = true
+						}
+					}
+				}
+			})
+		}
+		if nSites > 0 && !addrTaken && !math.IsNaN(cl) && !math.IsNaN(ch) {
+			iv.lo, iv.hi = math.Max(iv.lo, cl*kf), math.Min(iv.hi, ch*kf)
+		}
+	}
+	if math.IsInf(iv.lo, 0) || math.IsInf(iv.hi, 0) || math.IsNaN(iv.lo) || math.IsNaN(iv.hi) {
+		c.Fail("C07.f16", "packF16 exponent fits four bits", ppos, "the scaled value is not bounded when it enters the normalisation loop ("+fivString(iv)+"): the exponent is unbounded")
+		return
+	}
+	halvings := func(x int64) int {
+		n := 0
+		for (x > exHi || x < exLo) && n < 200 {
+			x /= 2
+			n++
+		}
+		return n
+	}
+	// the float32 product may round away from zero by less than one unit in the last place; widen by that much
+	ulp := func(f float64) float64 {
+		a := math.Abs(f)
+		return float64(math.Nextafter32(float32(a), float32(math.Inf(1)))) - float64(float32(a))
+	}
+	eLo, eHi := halvings(int64(math.Trunc(iv.lo-ulp(iv.lo)))), halvings(int64(math.Trunc(iv.hi+ulp(iv.hi))))
+	maxE := eLo
+	if eHi > maxE {
+		maxE = eHi
+	}
+	c.Decide(maxE <= 15, "C07.f16", "packF16 exponent fits four bits", ppos,
+		fmt.Sprintf("the mantissa enters the loop in %s and needs at most %d halvings to reach [%d, %d]", fivString(iv), maxE, exLo, exHi),
+		fmt.Sprintf("the mantissa enters the loop in %s; its ends need %d and %d halvings to reach [%d, %d], more than the 15 the 4-bit exponent holds: the exponent wraps around and the largest magnitudes are encoded as the smallest", fivString(iv), eLo, eHi, exLo, exHi))
 }
 
 // paramStores: stores through pointer parameter i of fn.
